@@ -56,14 +56,15 @@ def renderDr (l : List Tok) : String :=
   let g := go s []
   if g.isEmpty then "-" else joinWith "," (g.map fun (t, n) => if n = 1 then toString t else s!"{t}*{n}")
 
-/-- inverse of `renderDr` -/
-def parseDr (s : String) : Option (List Tok) :=
+/-- inverse of `renderDr`, as (token, multiplicity) pairs (multiplicities are never expanded: a
+    corrupted run may report absurd ones) -/
+def parseDr (s : String) : Option (List (Tok × Nat)) :=
   if s == "-" then some [] else
   (s.splitOn ",").foldlM (fun acc w =>
     match w.splitOn "*" with
-    | [t] => t.toNat?.map fun t => acc ++ [t]
+    | [t] => t.toNat?.map fun t => acc ++ [(t, 1)]
     | [t, n] => match t.toNat?, n.toNat? with
-      | some t, some n => some (acc ++ List.replicate n t)
+      | some t, some n => some (acc ++ [(t, n)])
       | _, _ => none
     | _ => none) []
 
@@ -273,11 +274,11 @@ def runLru (c : Case) (cap nkeys : Nat) (ops : Array LOp) : CaseOut := Id.run do
     match (field fl "dr").bind parseDr with
     | none => verdict := .fail s!"op {lab}: unparsable drop record [{fl}]"
     | some ds =>
-      for t in ds do
+      for (t, n) in ds do
         if !(verdict matches .ok) then break
         if t ≥ ntok then verdict := .fail s!"op {lab}: destructor of a token that does not exist yet ({t})"
         else
-          dropCount := dropCount.set! t (dropCount[t]! + 1)
+          dropCount := dropCount.set! t (dropCount[t]! + n)
           if dropCount[t]! > 1 then verdict := .fail s!"op {lab}: value {t} dropped {dropCount[t]!} times"
           else if q.items.any (fun p => p.2 == t) then
             verdict := .fail s!"op {lab}: value {t} dropped while it is still stored in the cache"
@@ -296,8 +297,8 @@ def runLru (c : Case) (cap nkeys : Nat) (ops : Array LOp) : CaseOut := Id.run do
         match (field fl "dr").bind parseDr with
         | none => verdict := .fail s!"unparsable drop record [{fl}]"
         | some ds =>
-          for t in ds do
-            if t < dropCount.size then dropCount := dropCount.set! t (dropCount[t]! + 1)
+          for (t, n) in ds do
+            if t < dropCount.size then dropCount := dropCount.set! t (dropCount[t]! + n)
           if dropCount.toList != List.replicate ntok 1 then
             verdict := .fail s!"per-operation drop records do not add up to one drop per value: {dropCount.toList}"
   if (verdict matches .ok) then
@@ -402,11 +403,11 @@ def runList (c : Case) (drain : Bool) (ops : Array QOp) : CaseOut := Id.run do
     match (field fl "dr").bind parseDr with
     | none => verdict := .fail s!"op {lab}: unparsable drop record [{fl}]"
     | some ds =>
-      for t in ds do
+      for (t, n) in ds do
         if !(verdict matches .ok) then break
         if t ≥ ntok then verdict := .fail s!"op {lab}: destructor of a token that does not exist yet ({t})"
         else
-          dropCount := dropCount.set! t (dropCount[t]! + 1)
+          dropCount := dropCount.set! t (dropCount[t]! + n)
           if dropCount[t]! > 1 then verdict := .fail s!"op {lab}: value {t} dropped {dropCount[t]!} times"
           else if q.any (fun p => p.2 == t) then
             verdict := .fail s!"op {lab}: value {t} dropped while it is still stored in the list"
@@ -424,8 +425,8 @@ def runList (c : Case) (drain : Bool) (ops : Array QOp) : CaseOut := Id.run do
         match (field fl "dr").bind parseDr with
         | none => verdict := .fail s!"unparsable drop record [{fl}]"
         | some ds =>
-          for t in ds do
-            if t < dropCount.size then dropCount := dropCount.set! t (dropCount[t]! + 1)
+          for (t, n) in ds do
+            if t < dropCount.size then dropCount := dropCount.set! t (dropCount[t]! + n)
           if dropCount.toList != List.replicate ntok 1 then
             verdict := .fail s!"per-operation drop records do not add up to one drop per value: {dropCount.toList}"
   -- ---------------- model (L1); the drain phase pops until the model list answers none
